@@ -15,6 +15,7 @@ import (
 	"sort"
 	"strings"
 	"sync"
+	"sync/atomic"
 	"syscall"
 	"time"
 )
@@ -200,7 +201,7 @@ func WorkerMain(prop, tier string, seed uint64, scns []int, outPath, tmp string,
 		}()
 		to := part.Timeout
 		if to == 0 {
-			to = 3 * time.Minute
+			to = 90 * time.Second
 		}
 		select {
 		case <-finished:
@@ -333,6 +334,7 @@ type workerRun struct {
 	exit    int
 	timed   bool
 	crashes []crashInfo
+	cutShort int
 }
 
 // Run executes a check and returns the process exit code.
@@ -518,16 +520,27 @@ func scanOut(path string) (started map[int]Rec, finished map[int]bool) {
 }
 
 // runWorker runs a worker process over w.scns, restarting it for the remaining scenarios if it dies or aborts.
+// abnormalEnds counts worker processes that died or aborted in this run; once a handful of scenarios have
+// hung or crashed the point is made, and the rest of the run is cut short instead of waiting out every watchdog.
+var abnormalEnds atomic.Int64
+
+const maxAbnormalEnds = 6
+
 func runWorker(o Options, w *workerRun, timeout time.Duration) {
 	remaining := append([]int(nil), w.scns...)
 	deadline := time.Now().Add(timeout)
 	for attempt := 0; attempt < 200 && len(remaining) > 0; attempt++ {
+		if abnormalEnds.Load() >= maxAbnormalEnds {
+			w.cutShort = len(remaining)
+			return
+		}
 		errPath := fmt.Sprintf("%s.%d", w.errPath, attempt)
 		exit, timed := runWorkerOnce(o, w, remaining, errPath, time.Until(deadline))
 		started, finished := scanOut(w.out)
 		if exit == 0 {
 			return
 		}
+		abnormalEnds.Add(1)
 		// which scenario was running?
 		cur := -1
 		var curRec Rec
@@ -671,6 +684,9 @@ func mergeWorker(chk *Check, o Options, w *workerRun, m *Merged) {
 			}
 		}
 		f.Close()
+	}
+	if w.cutShort > 0 {
+		m.Counts["scenarios_not_run_after_repeated_hangs_or_crashes"] += int64(w.cutShort)
 	}
 	for _, ci := range w.crashes {
 		if ci.timed {
